@@ -46,25 +46,25 @@ const (
 
 // Task is one simulated goroutine.
 type Task struct {
-	ID         int
-	Name       string
-	w          *World
-	wake       chan struct{}
-	state      taskState
-	blockKind  string
-	blockObj   unsafe.Pointer
-	points     uint64
-	loadStreak int
-	prio       int64
-	joiners    []*Task
-	PanicVal   any
-	Panicked   bool
-	signaled   bool // for cond / generic wake
-	Tag        any
-	Background bool // spawned by instrumented code via `go`
+	ID          int
+	Name        string
+	w           *World
+	wake        chan struct{}
+	state       taskState
+	blockKind   string
+	blockObj    unsafe.Pointer
+	points      uint64
+	loadStreak  int
+	prio        int64
+	joiners     []*Task
+	PanicVal    any
+	Panicked    bool
+	signaled    bool // for cond / generic wake
+	Tag         any
+	Background  bool // spawned by instrumented code via `go`
 	unlockHooks []func()
-	FinishSeq  uint64
-	held       []heldLock
+	FinishSeq   uint64
+	held        []heldLock
 }
 
 type heldLock struct {
@@ -78,7 +78,10 @@ type FailureKind string
 const (
 	FailDeadlock   FailureKind = "deadlock"
 	FailStepBudget FailureKind = "step-budget"
-	FailHarness    FailureKind = "harness"
+	// FailStepBudgetUnfair: the budget ran out while a strategy (not the fair phase) was deciding.
+	// A strategy may starve a task for a long time, so this is inconclusive, not a liveness verdict.
+	FailStepBudgetUnfair FailureKind = "step-budget-unfair"
+	FailHarness          FailureKind = "harness"
 )
 
 type Failure struct {
@@ -115,14 +118,16 @@ type World struct {
 	condGen map[unsafe.Pointer]uint64
 
 	// schedule
-	Strat     Strategy
-	replay    map[uint64]int32
-	replaying bool
-	Rec       []Deviation
-	recLimit  int
-	fair      bool
-	fairCount int
-	nopreempt int
+	Strat      Strategy
+	replay     map[uint64]int32
+	replaying  bool
+	Rec        []Deviation
+	recLimit   int
+	fair       bool
+	fairCount  int
+	fairStart  uint64
+	FairBudget uint64
+	nopreempt  int
 
 	// clock
 	Now int64
@@ -371,7 +376,7 @@ func (w *World) point(k Kind) {
 	t.points++
 	w.PointsByKind[k]++
 	if w.Steps > w.MaxSteps {
-		w.abort(&Failure{Kind: FailStepBudget, Detail: fmt.Sprintf("exceeded %d scheduling points; tasks: %s", w.MaxSteps, w.describeBlocked()), Step: w.Steps})
+		w.budgetExceeded()
 	}
 	if w.nopreempt > 0 {
 		return
@@ -382,6 +387,7 @@ func (w *World) point(k Kind) {
 			// probable spin: deterministic forced yield
 			if n := w.nextRoundRobin(t); n != nil && n != t {
 				w.SpinYields++
+				w.Strat.OnSpin(w, t)
 				w.handoff(t, n)
 				return
 			}
@@ -420,11 +426,23 @@ func Yield() {
 	t.points++
 	w.PointsByKind[KYield]++
 	if w.Steps > w.MaxSteps {
-		w.abort(&Failure{Kind: FailStepBudget, Detail: fmt.Sprintf("exceeded %d scheduling points; tasks: %s", w.MaxSteps, w.describeBlocked()), Step: w.Steps})
+		w.budgetExceeded()
 	}
 	if n := w.nextRoundRobin(t); n != nil && n != t {
 		w.handoff(t, n)
 	}
+}
+
+// budgetExceeded: in the fair phase (round-robin, no faults) running out of steps is a liveness
+// violation; while a strategy is deciding it only means the strategy starved somebody.
+func (w *World) budgetExceeded() {
+	kind := FailStepBudgetUnfair
+	if w.fair && w.Steps-w.fairStart > w.FairBudget {
+		kind = FailStepBudget
+	} else if w.fair {
+		return
+	}
+	w.abort(&Failure{Kind: kind, Detail: fmt.Sprintf("exceeded the step budget (%d points, %d in the fair phase); tasks: %s", w.Steps, w.Steps-w.fairStart, w.describeBlocked()), Step: w.Steps})
 }
 
 func (w *World) nextRoundRobin(t *Task) *Task {
@@ -730,7 +748,20 @@ func (w *World) AwaitQuiescence() {
 }
 
 // SetFair switches to the fair round-robin drain phase (no strategy, no recorded deviations).
-func (w *World) SetFair(on bool) { w.fair = on; w.fairCount = 0 }
+func (w *World) SetFair(on bool) {
+	w.fair = on
+	w.fairCount = 0
+	if on {
+		w.fairStart = w.Steps
+		if w.FairBudget == 0 {
+			w.FairBudget = 1_000_000
+		}
+		// the fair phase gets its own budget on top of whatever the strategies consumed
+		if w.MaxSteps < w.Steps+w.FairBudget {
+			w.MaxSteps = w.Steps + w.FairBudget
+		}
+	}
+}
 
 // NoPreempt disables scheduling decisions at points (harness set-up / audits).
 func (w *World) NoPreempt(fn func()) {
